@@ -281,6 +281,9 @@ func (bkt *Bucket) checkForDump(dumpthreshold int) bool {
 // called by hstore, data already flushed
 func (bkt *Bucket) close() {
 	logger.Infof("closing bucket %s", bkt.Home)
+	// the asynchronous flush that follows a data-file rotation may not have run
+	// yet: flush every older chunk that still buffers acknowledged records
+	bkt.datas.flushOldChunks()
 	bkt.datas.flush(-1, true)
 	datas, _ := filepath.Glob(fmt.Sprintf("%s/*.data", bkt.Home))
 	if len(datas) == 0 {
